@@ -48,6 +48,10 @@ ASSUME = [
     "asserted to be honoured (result dtype), not its values",
     "float comparison: |a-b| <= 1e-9 + 1e-12 (all quantities are O(1)); float32 requests: 2**-20",
     "numpy integer summation / comparison used by the monitor's comparisons is trusted",
+    "attribution: when an object's afreq() (resp. gtcount()) is itself reported in a case, statistics of the same object "
+    "that are exactly what follows from the wrong value (afixed/apoly/maf/complement, resp. gtfreq), requested-dtype "
+    "variants equal to the reported default answer, and phased-vs-unphased mismatches on an already reported statistic "
+    "are counted under 'counters' instead of being keyed as separate findings; any other deviation is keyed on its own",
 ]
 TOL = 1e-9 * 1.0 + 1e-12
 TOL32 = 2.0 ** -20
@@ -56,7 +60,7 @@ NS_HOSTILE = [1, 2, 3, 7, 49, 98, 103, 107, 161]
 PLOIDIES = [1, 3, 4, 6]
 BADN = {P: [n for n in range(1, 201) if (1.0 / (P * n)) * (P * n) != 1.0] for P in [1, 2, 3, 4, 6]}
 
-COUNT_DT = ["int16", "int32", "int64", int, "float32", "float64", float, "uint16", numpy.int32, numpy.dtype("int64")]
+COUNT_DT = ["int16", "int32", "int64", int, "float32", "float64", float, "uint16", numpy.int32, numpy.dtype("int64"), "bool"]
 FLAG_DT = ["bool", bool, "int8", "int64", int, "float32", "float64", "uint8", numpy.bool_, numpy.dtype("int8")]
 FREQ_DT = ["float32", "float64", float, numpy.float32, numpy.dtype("float64"), "float32", "int64", int, "bool"]
 KIND = {"tacount": "count", "acount": "count", "gtcount": "count", "afixed": "flag", "apoly": "flag",
@@ -567,7 +571,7 @@ def one_case(ctx, c):
         judge_projection(ctx, SP, SU, R, iN, iP, W, coords)
 
 
-QUICK_TOTAL, THOROUGH_TOTAL = 16000, 600000
+QUICK_TOTAL, THOROUGH_TOTAL = 16000, 320000
 
 
 def run_shard(ctx):
